@@ -44,6 +44,7 @@ STRIDES = {"quick": 1, "thorough": 16}
 QUICK_STRIDES = {"polygon ^ polygon (crossing)": 10, "polygon - polygon (crossing)": 5, "connected & simple (contained)": 4,
                  "polygon & polygon (crossing)": 4, "copy of disjoint": 3, "polygon == rotated polygon": 2, "simple | connected (contained)": 3}
 QUICK_SAMPLE = 50
+PROBE_EVERY = {"quick": 25, "thorough": 6}
 LINE_FUNCTIONS = (
     "SimpleShape._contains_shape", "JordanCurve.invert", "JordanCurve.split",
     "JordanCurve.__split_segment", "JordanCurve.segments", "FollowPath.split_two_jordans",
@@ -102,6 +103,7 @@ def ops_fixed():
     ops["unbounded in unbounded"] = (lambda: [~_sq(4), ~_sq(2)], lambda o: o[0] in o[1])
     ops["~connected"] = (lambda: [_hollow()], lambda o: ~o[0])
     ops["float(disjoint)"] = (lambda: [_sq(1, (-3, 0)) | _sq(1, (3, 0))], lambda o: float(o[0]))
+    ops["disjoint in simple"] = (lambda: [_sq(1, (-2, 0)) | _sq(1, (2, 0)), _sq(8)], lambda o: o[0] in o[1])
     return ops
 
 
@@ -117,7 +119,6 @@ def ops_thorough():
     ops["connected - simple (crossing hole)"] = (
         lambda: [_sq(8) - _sq(2), _poly([(0, 0), (6, 1), (5, 3), (1, 2)])], lambda o: o[0] - o[1])
     ops["connected in connected"] = (lambda: [_sq(6) - _sq(2), _sq(8) - _sq(1)], lambda o: o[0] in o[1])
-    ops["disjoint in simple"] = (lambda: [_sq(1, (-2, 0)) | _sq(1, (2, 0)), _sq(8)], lambda o: o[0] in o[1])
     ops["simple in disjoint"] = (lambda: [_sq(1, (2, 0)), _sq(2, (-3, 0)) | _sq(2, (2, 0))], lambda o: o[0] in o[1])
     ops["connected == connected"] = (lambda: [_hollow(), _sq(4) - _sq(2)], lambda o: o[0] == o[1])
     ops["curve == curve"] = (
@@ -256,7 +257,7 @@ def enumerate_op(case, ctx, opname, build, run, mode, stride, offset, sample=Non
         if cold:
             # only the boundaries inside the functions that fill the module-level memo tables
             ks = [k for k in range(1, total + 1) if sites[k - 1][0] in MEMO_FUNCTIONS]
-            sample = None
+            sample = 40 if ctx.tier == "quick" else None
         if sample == "auto":
             # thorough: every boundary of operations with up to ~8000 boundaries; beyond that, per
             # stride, the first occurrence of every site plus 400 sampled boundaries
@@ -302,7 +303,7 @@ def enumerate_op(case, ctx, opname, build, run, mode, stride, offset, sample=Non
                 case.count("inject:swallowed")
             case.judged()
             if not compare_operands(case, opname, "%s+%s (boundary %d/%d, %s%s)" % (site[0], site[1], k, total, mode, ", cold memo tables" if cold else ""),
-                                    operands, before, twins, probes if (fired % 5 == 0 or cold) else None):
+                                    operands, before, twins, probes if (fired % PROBE_EVERY[ctx.tier] == 0 or cold) else None):
                 if len(case.violations) >= 3:
                     break
         case.spec.setdefault("sites", 0)
